@@ -171,18 +171,67 @@ def _memmap(I, a, k):
 
 
 class GhostFile:
-    """file opened for writing: ndarray.tofile(f) appends; every write is recorded (array snapshot, rows already written)"""
+    """file opened for writing: ndarray.tofile(f) writes at the current position and advances it; every write is recorded
+    as (position before, array snapshot).  Positions are byte offsets (symbolic)."""
 
-    def __init__(self, name="file"):
+    def __init__(self, name="file", pos=0):
         self.name = name
         self.writes = []
+        self.positions = []
         self.closed = False
+        self.pos = pos
 
     def write_array(self, arr):
         if self.closed:
             from .interp import PyRaise
             raise PyRaise(ValueError("I/O operation on closed file"))
+        arr = A.as_sarr(arr)
+        self.positions.append(self.pos)
         self.writes.append(arr.copy())
+        n = z3.IntVal(arr.dtype.itemsize)
+        for d in arr.shape:
+            n = n * A.T(d)
+        from .core import wrap
+        self.pos = wrap(term(self.pos) + n)
+
+    def seek(self, pos, whence=0):
+        if whence != 0:
+            raise Unsupported("seek with whence != 0")
+        self.pos = pos
+        return pos
+
+    def tell(self):
+        return self.pos
 
     def close(self):
         self.closed = True
+
+    def __enter__(self):
+        return self
+
+    def __exit__(self, *a):
+        self.close()
+
+
+import builtins as _builtins
+
+
+@models.model(_builtins.open)
+def _open(I, a, k):
+    """open() of a ghost path: a fresh GhostFile registered with the session (A-FS)"""
+    f = a[0]
+    if not isinstance(f, GhostPath):
+        return NotImplemented
+    mode = a[1] if len(a) > 1 else k.get("mode", "r")
+    gf = GhostFile(f.key)
+    gf.mode = mode
+    fs = f.fs
+    if "w" in mode:
+        fs.log.append(("open_w", f.key, None))
+        fs.exists[f.key] = True
+        fs.size[f.key] = 0
+    reg = getattr(I.session, "ghost_files", None)
+    if reg is None:
+        reg = I.session.ghost_files = {}
+    reg.setdefault(f.key, []).append(gf)
+    return gf
